@@ -47,6 +47,7 @@ Conform ==
     \/ /\ Ev.op = "collect" /\ Collect(Ev.s, Ev.ds)
        /\ out'.docs = Ev.docs /\ out'.err = Ev.err /\ out'.rep = Ev.rep /\ out'.cap = Ev.cap
     \/ Ev.op = "checkpoint" /\ Checkpoint
+    \/ Ev.op = "configure" /\ Len(Ev.ds) = 1 /\ Configure(Ev.ds[1])
     \/ Ev.op = "pause" /\ Pause
     \/ /\ Ev.op = "close" /\ Close
        /\ out'.status = Ev.status
@@ -59,7 +60,7 @@ Monitor ==
     /\ \/ /\ Ev.op = "declare"
           /\ decl' = [decl EXCEPT ![Ev.s] = Range(Ev.ds)]
           /\ UNCHANGED <<ctr, copy, phase, failed, kf, mIdx, mSeq, viol>>
-       \/ /\ Ev.op = "env"
+       \/ /\ Ev.op \in {"env", "configure"}
           /\ UNCHANGED <<decl, ctr, copy, phase, failed, kf, mIdx, mSeq, viol>>
        \/ /\ Ev.op = "collect"
           /\ LET m == MonCollect(Ev.ds, Ev.rep, Ev.cap, Ev.docs, Ev.err, decl[Ev.s])
